@@ -100,6 +100,11 @@ impl SuspenseTaskGuard {
 
     /// Create a new suspense task guard from a suspense scope.
     pub fn from_scope(mut scope: SuspenseScope) -> Self {
+        // The suspense scope may have been disposed in the meantime (e.g. a resource that was read
+        // under it is fetched again later): there is nothing to suspend then.
+        if !scope.tasks_remaining.is_alive() {
+            return Self { scope: None };
+        }
         scope.tasks_remaining += 1;
         Self { scope: Some(scope) }
     }
